@@ -186,5 +186,24 @@ pub fn programs() -> Vec<(String, Program)> {
         ];
         out.push(("nested-generics".into(), Program { defs, roots }));
     }
+    // 8. a two-parameter generic whose parameters are only used wrapped, instantiated with
+    //    arguments that overlap across positions (Pair<a,b>, Pair<b,c>, Pair<c,a>)
+    {
+        let defs = vec![strukt(&["x", "Pair"], &[("T", false), ("U", false)], vec![
+            f(Some("first"), Src::Vec(bx(Src::Param(0)))),
+            f(Some("second"), Src::Vec(bx(Src::Param(1)))),
+            f(Some("both"), Src::Tuple(vec![Src::Opt(bx(Src::Param(0))), Src::Array(2, bx(Src::Param(1)))])),
+        ])];
+        let a = Src::Prim("u8");
+        let b = Src::Prim("u16");
+        let c = Src::Prim("u32");
+        let roots = vec![
+            Src::App(0, vec![b.clone(), c.clone()]),
+            Src::App(0, vec![Src::Prim("bool"), Src::Prim("char")]),
+            Src::App(0, vec![a.clone(), b.clone()]),
+            Src::App(0, vec![c.clone(), a.clone()]),
+        ];
+        out.push(("cross-overlap".into(), Program { defs, roots }));
+    }
     out
 }
